@@ -480,6 +480,10 @@ func genPTR(r *vlib.R, g *genCfg, emit func(string)) int {
 }
 
 func gen(r *vlib.R, n int, tier string, emit func(string)) {
+	// vlib.NewR(seed) starts at seed*gamma+c and every draw adds gamma, so the
+	// stream of seed k+1 is the stream of seed k shifted by one draw. Re-key
+	// from the first (mixed) output so that different seeds are unrelated.
+	r = vlib.NewR(r.U64() ^ 0xC20C20)
 	// fixed block: every legal length x boundary IPv4 x representative prefixes
 	fixedP := []string{"20010db8012203440000000000000000", "0064ff9b000000000000000000000000", "ffffffffffffffff00ffffffffffffff", "00000000000000000000ffff00000000"}
 	fixedV := []string{"00000000", "ffffffff", "c0000221", "80000001", "00ffff07", "0000ffff"}
